@@ -215,9 +215,13 @@ def run_pipeline(fmt: str, data: bytes, reader_cfg=None, timeout=20, stages=True
   signal.signal(signal.SIGALRM, _alarm)
   signal.alarm(timeout)
   doc = None
+  from .core import AltContext, alt_for
+  import zlib
+  alt = alt_for(("faults", fmt, zlib.crc32(bytes(data))))
   try:
     try:
-      doc = read(fmt, data, reader_cfg, collector("reader_" + fmt))
+      with AltContext(alt):
+        doc = read(fmt, data, reader_cfg, collector("reader_" + fmt))
       out["read"] = "Doc" if doc is not None else "NoneAfterFatal"
       out["fatal"] = 1 if counter.n > 0 else 0
     except BaseException as ex:  # pylint: disable=broad-except
@@ -233,7 +237,8 @@ def run_pipeline(fmt: str, data: bytes, reader_cfg=None, timeout=20, stages=True
     def stage(name, fn):
       signal.alarm(timeout)
       try:
-        fn()
+        with AltContext(alt):
+          fn()
         out["stages"].append({"s": name, "o": "Ok"})
       except BaseException as ex:  # pylint: disable=broad-except
         if isinstance(ex, (KeyboardInterrupt, SystemExit)):
